@@ -41,7 +41,8 @@ def render_request(c, rnd):
     if c == "srcerr":
         return b64({"action": "compile", "code": {"": rnd.choice(["x = (\n", corpus.HEADER + "import os\nclass A: pass\n", "def f(:\n"])}})
     if c == "crash":
-        return b64({"action": "compile", "code": {"": "# pytrapic: __class__\n" + GOOD_SRC}})
+        # compile_code raises (KeyError: no main module in the mapping); the daemon must turn that into an error reply
+        return b64({"action": "compile", "code": {rnd.choice(["lib", "x", "main"]): GOOD_SRC}})
     if c == "print":
         return b64({"action": "compile", "code": {"": PRINT_SRC}})
     if c == "bad64":
